@@ -28,7 +28,7 @@ Who(tn) == PrintS(CallE("nul", <<StrE(tn)>>))      \* callback: the argument nam
 PerLevel == 27                                       \* 3 * 3 * 3
 RECURSIVE Pow27(_)
 Pow27(n) == IF n = 0 THEN 1 ELSE 27 * Pow27(n - 1)
-CountL(L) == 6 * Pow27(L - 1)                         \* layouts x byexpr x levels
+CountL(L) == 12 * Pow27(L - 1)                        \* layouts x byexpr x callb x levels
 RECURSIVE BaseOf(_)
 BaseOf(L) == IF L = 1 THEN 0 ELSE BaseOf(L - 1) + CountL(L - 1)
 Total == BaseOf(MaxL) + CountL(MaxL)
@@ -38,9 +38,10 @@ Config(j) ==
       r == j - BaseOf(L)
       lay == Layouts[(r % 3) + 1]
       bx == ((r \div 3) % 2) = 1
-      rest == r \div 6
+      cb == ((r \div 6) % 2) = 1
+      rest == r \div 12
       Dig(l) == (rest \div Pow27(l - 1)) % 27
-  IN [L |-> L, layout |-> lay, byexpr |-> bx,
+  IN [L |-> L, layout |-> lay, byexpr |-> bx, callb |-> cb,      \* callb: overrides of a render block('b') and a nested block before calling parent()
       spec |-> [l \in 1..(L - 1) |-> [a |-> Specs[(Dig(l) % 3) + 1], b |-> Specs[((Dig(l) \div 3) % 3) + 1]]],
       use |-> [l \in 1..(L - 1) |-> Uses[((Dig(l) \div 9) % 3) + 1]]]
 
@@ -48,6 +49,8 @@ Config(j) ==
 OwnBlock(c, l, b) ==
   LET sp == c.spec[l][b] IN
   BlockS(b, <<Who(TName(l)), Lbl(TName(l) \o b)>>
+            \o (IF c.callb /\ b = "a" THEN <<Lbl("<"), PrintS(CallE("block", <<StrE("b")>>)), Lbl(">"),
+                                                BlockS("n" \o ToString(l), <<Lbl("N")>>)>> ELSE <<>>)
             \o (IF sp = "overp" THEN <<Lbl("("), PrintS(CallE("parent", <<>>)), Lbl(")")>> ELSE <<>>)
             \o (IF b = "a" /\ c.use[l] = "alias" THEN <<Lbl("|"), PrintS(CallE("block", <<StrE("uh" \o ToString(l))>>)), Lbl("|")>> ELSE <<>>))
 Child(c, l) ==
@@ -100,6 +103,7 @@ RenderFrom(c, b, pos) ==
   CASE d[2] = "root" -> S2B(d[1] \o b) \o (IF b = "a" /\ c.layout = "nested" THEN S2B("<") \o RenderFrom(c, "b", 1) \o S2B(">") ELSE <<>>)
     [] d[2] = "used" -> S2B(d[1] \o "a(") \o RenderFrom(c, b, pos + 1) \o S2B(")")
     [] OTHER -> S2B(d[1] \o b)
+                \o (IF c.callb /\ b = "a" THEN S2B("<") \o RenderFrom(c, "b", 1) \o S2B(">N") ELSE <<>>)
                 \o (IF d[2] = "overp" THEN S2B("(") \o RenderFrom(c, b, pos + 1) \o S2B(")") ELSE <<>>)
                 \o (IF b = "a" /\ c.use[lev] = "alias" THEN S2B("|" \o UName(lev) \o "h|") ELSE <<>>)
 Resolved(c, b) == RenderFrom(c, b, 1)
